@@ -669,7 +669,15 @@ def murmur_pair(chk):
         cf = c_facts(ctext)
     except ValueError as e:
         raise AnalysisError('cmurmur3.c: expected section markers not found (%s)' % e)
-    pm = repo.mod(MURMUR)
+    pm_cur = repo.mod(MURMUR)
+    # pure implementation vs reference source by expression trees; the C source is then compared, constant by constant, with that reference
+    from .. import murmur as _mm
+    pm = _mm.reference_module()
+    bad_len, bad_op, tc_, tr_ = _mm.compare(pm_cur, pm)
+    chk.judge(not bad_len and not bad_op, 'C07.murmur', (MURMUR, '_murmur3', pm_cur.func('_murmur3').lineno),
+              'murmur3.py computes the reference expression for every key length 0..48 (the C source is compared with the same reference below)',
+              'the pure implementation differs from the reference for key lengths %s / operators %s: %s' %
+              (bad_len[:8], bad_op[:2], _mm.first_difference(tc_[bad_len[0]], tr_[bad_len[0]]) if bad_len else ''))
     folder = Folder(pm)
     f = pm.func('_murmur3')
     consts = {}
@@ -726,8 +734,8 @@ def murmur_pair(chk):
         if got != want:
             bad.append((L, sorted(got ^ want)))
     chk.judge(not bad, 'C07.murmur', (MURMUR, '_murmur3', f.lineno), 'Python tail loops touch exactly the C cases (byte, shift) for every tail length 0..15', 'tail handling differs for tail lengths %s' % bad[:3])
-    bt = pm.func('body_and_tail')
-    bt_bad, signed_py = body_tail_facts(pm, bt)
+    bt = pm_cur.func('body_and_tail')
+    bt_bad, signed_py = body_tail_facts(pm_cur, bt)
     signed_py = signed_py and not unsigned
     signed_c = cf['tail_type'] == ('int8_t', 'int8_t') and cf['data_type'] == ('int8_t', 'int8_t')
     tz7 = cf.get('tail_zero') or {}
